@@ -137,6 +137,90 @@ let op_delta_safes = function
       if DeltaColorOnly.safesb c Delta.init (Delta.number_from O (lines_of_arg lines)) then "true" else "false"
   | _ -> "BADARGS"
 
+(* ---- styles (C12, C09) *)
+let color_of_string w =
+  if w = "normal" || w = "-" then None
+  else
+    let k = S.sub w 1 (S.length w - 1) in
+    match S.get w 0 with
+    | 'n' -> Some (AnsiTerm.Named (n_of_int (int_of_string k)))
+    | 'f' -> Some (AnsiTerm.Fixed (n_of_int (int_of_string k)))
+    | 'r' ->
+        let h i = n_of_int (int_of_string ("0x" ^ S.sub k (2 * i) 2)) in
+        Some (AnsiTerm.RGB (h 0, h 1, h 2))
+    | _ -> failwith ("bad colour " ^ w)
+
+let string_of_color = function
+  | None -> "-"
+  | Some (AnsiTerm.Named n) -> "n" ^ string_of_int (int_of_n n)
+  | Some (AnsiTerm.Fixed n) -> "f" ^ string_of_int (int_of_n n)
+  | Some (AnsiTerm.RGB (r, g, b)) -> Printf.sprintf "r%02x%02x%02x" (int_of_n r) (int_of_n g) (int_of_n b)
+
+let word_of_string w =
+  let open ParseStyle in
+  match w with
+  | "blink" -> WAttr ABlink | "bold" -> WAttr ABold | "dim" -> WAttr ADim | "hidden" -> WAttr AHidden
+  | "italic" -> WAttr AItalic | "reverse" -> WAttr AReverse | "strike" -> WAttr AStrike | "ul" -> WAttr AUl
+  | "omit" -> WOmit | "raw" -> WRaw | "hf" -> WHunkFlag | "syntax" -> WSyntax | "auto" -> WAuto
+  | _ -> WColor (color_of_string w)
+
+let string_of_word w =
+  let open ParseStyle in
+  match w with
+  | WAttr ABlink -> "blink" | WAttr ABold -> "bold" | WAttr ADim -> "dim" | WAttr AHidden -> "hidden"
+  | WAttr AItalic -> "italic" | WAttr AReverse -> "reverse" | WAttr AStrike -> "strike" | WAttr AUl -> "ul"
+  | WOmit -> "omit" | WRaw -> "raw" | WHunkFlag -> "hf" | WSyntax -> "syntax" | WAuto -> "auto"
+  | WColor None -> "normal"
+  | WColor c -> string_of_color c
+
+let words_of_arg a = if a = "" then [] else L.map word_of_string (S.split_on_char ',' a)
+
+let fields_of_pstyle (p : ParseStyle.pstyle) =
+  let st = p.ParseStyle.sty in
+  let attrs =
+    L.filter_map (fun (b, n) -> if b then Some n else None)
+      [ (st.AnsiTerm.bold, "bold"); (st.AnsiTerm.dim, "dim"); (st.AnsiTerm.ital, "italic"); (st.AnsiTerm.ul, "ul");
+        (st.AnsiTerm.blink, "blink"); (st.AnsiTerm.rev, "reverse"); (st.AnsiTerm.hid, "hidden");
+        (st.AnsiTerm.strike, "strike") ] in
+  let b x = if x then "1" else "0" in
+  Printf.sprintf "fg=%s;bg=%s;attrs=%s;omit=%s;raw=%s;syntax=%s" (string_of_color st.AnsiTerm.fg)
+    (string_of_color st.AnsiTerm.bg) (S.concat "," attrs) (b p.ParseStyle.omitted) (b p.ParseStyle.israw)
+    (b p.ParseStyle.syntax)
+
+let op_style_parse = function
+  | [ words ] ->
+      (match ParseStyle.parse None (words_of_arg words) with
+       | ParseStyle.POk p -> "OK\t" ^ fields_of_pstyle p
+       | ParseStyle.PErr e -> "ERR\t" ^ string_of_int (int_of_nat e))
+  | _ -> "BADARGS"
+
+let op_style_display = function
+  | [ words ] ->
+      (match ParseStyle.parse None (words_of_arg words) with
+       | ParseStyle.POk p -> "OK\t" ^ S.concat "," (L.map string_of_word (ParseStyle.display p))
+       | ParseStyle.PErr e -> "ERR\t" ^ string_of_int (int_of_nat e))
+  | _ -> "BADARGS"
+
+let string_of_tok = function
+  | AnsiTerm.Sgr ps -> "S" ^ S.concat ";" (L.map (fun p -> string_of_int (int_of_n p)) ps)
+  | AnsiTerm.Txt t -> "T" ^ hex_of_text t
+
+(* ansi_strings words:hextext|words:hextext|... -> tokens *)
+let op_ansi_strings = function
+  | [ spec ] ->
+      let segs = if spec = "" then [] else S.split_on_char '|' spec in
+      let seg e =
+        let i = S.index e ':' in
+        let ws = S.sub e 0 i and t = S.sub e (i + 1) (S.length e - i - 1) in
+        match ParseStyle.parse None (words_of_arg ws) with
+        | ParseStyle.POk p -> (p.ParseStyle.sty, text_of_hex t)
+        | ParseStyle.PErr _ -> failwith "style error" in
+      let l = L.map seg segs in
+      let toks = AnsiTerm.ansi_strings l in
+      let (cells, fin) = AnsiTerm.decode AnsiTerm.plain toks in
+      "OK\t" ^ S.concat " " (L.map string_of_tok toks) ^ "\t" ^ (if fin = AnsiTerm.plain && cells = l then "balanced" else "UNBALANCED")
+  | _ -> "BADARGS"
+
 (* blame_run n keys gitflags *)
 let op_blame_run = function
   | [ n; keys; flags ] ->
@@ -157,6 +241,9 @@ let op_blame_spec = function
   | _ -> "BADARGS"
 
 let dispatch = function
+  | "style_parse" :: args -> op_style_parse args
+  | "style_display" :: args -> op_style_display args
+  | "ansi_strings" :: args -> op_ansi_strings args
   | "delta_run" :: args -> op_delta_run args
   | "delta_prefix" :: args -> op_delta_prefix args
   | "delta_sides" :: args -> op_delta_sides args
